@@ -298,6 +298,9 @@ func (eng *Engine) report(prop, tier, verifDir string, units []*FuncUnit, report
 				unconfirmed++
 			}
 			if o.OK() {
+				if verbose && (o.Secs > 1.5 || strings.Contains(o.Solver, "/")) {
+					fmt.Printf("  slow: %-90s %.2fs %s\n", o.Name, o.Secs, o.Solver)
+				}
 				discharged++
 				nOK++
 				solverTime[o.Solver] += o.Secs
